@@ -1,10 +1,13 @@
 //! One module per property.
 use crate::coord::Check;
 
+pub mod common;
+pub mod c01;
+pub mod c03;
 pub mod c16;
 
 pub fn all() -> Vec<Check> {
-    vec![c16::check()]
+    vec![c01::check(), c03::check(), c16::check()]
 }
 
 pub fn child_main(_args: &[String]) -> i32 {
